@@ -569,19 +569,26 @@ impl Runtype {
                                 break;
                             }
 
-                            // if it has the key but type is not the same, it is a conflict
-                            let has_conflicts = obj_kvs.iter().any(|(k, v)| match vs.get(k) {
-                                Some(other_v) => other_v != v,
-                                None => false,
-                            });
-
-                            if has_conflicts {
-                                return Self::new(RuntypeKind::AllOf(BTreeSet::from_iter(
-                                    all_of_items,
-                                )));
+                            // a key declared by several members with different types holds the intersection of
+                            // those types: { k: A } & { k: B } is { k: A & B }
+                            for (k, v) in vs.iter() {
+                                match obj_kvs.iter_mut().find(|(k2, _)| k2 == k) {
+                                    Some((_, prev)) => {
+                                        if prev != v {
+                                            let both = Runtype::all_of(vec![
+                                                prev.inner().clone(),
+                                                v.inner().clone(),
+                                            ]);
+                                            *prev = if prev.is_required() || v.is_required() {
+                                                Optionality::Required(both)
+                                            } else {
+                                                Optionality::Optional(both)
+                                            };
+                                        }
+                                    }
+                                    None => obj_kvs.push((k.clone(), v.clone())),
+                                }
                             }
-
-                            obj_kvs.extend(vs.iter().map(|it| (it.0.clone(), it.1.clone())));
                         }
                         _ => {
                             all_objects = false;
